@@ -121,7 +121,12 @@ def ensure_project():
     """(Re)generate _CoqProject + Makefile when the file set changed."""
     files = []
     for sub in ("Lib", "Model", "Proofs", "Props", "Gen"):
-        files += sorted(glob.glob(os.path.join(COQ, sub, "*.v")))
+        for f in sorted(glob.glob(os.path.join(COQ, sub, "*.v"))):
+            # scratch/debug files (names not starting with the property id) are ignored
+            if sub in ("Model", "Proofs", "Props") and not re.match(
+                    r"^C\d{2,3}[A-Za-z0-9_]*\.v$", os.path.basename(f)):
+                continue
+            files.append(f)
     rel = [os.path.relpath(f, COQ) for f in files]
     text = "-Q . PP\n-arg -w -arg -all\n" + "\n".join(rel) + "\n"
     proj = os.path.join(COQ, "_CoqProject")
@@ -154,6 +159,18 @@ def make_targets(targets, timeout=1500, jobs=8):
         rc, out, err, dt = sh(
             ["make", f"-j{jobs}", "-k"] + targets, timeout, cwd=COQ
         )
+        if rc != 0 and "No rule to make target" in (out + err):
+            # a source file listed in the project vanished meanwhile: regenerate, retry once
+            for f in ("_CoqProject", ".Makefile.d"):
+                try:
+                    os.remove(os.path.join(COQ, f))
+                except OSError:
+                    pass
+            ensure_project()
+            rc, out, err, dt2 = sh(
+                ["make", f"-j{jobs}", "-k"] + targets, timeout, cwd=COQ
+            )
+            dt += dt2
     return rc, out + "\n" + err, dt
 
 
